@@ -10,9 +10,23 @@
 (* |Proc| = 4 as a cross-check of the proof obligations' transcription.    *)
 (***************************************************************************)
 EXTENDS Naturals, TLAPS
-CONSTANT Proc, None
+CONSTANTS
+  \* @type: Set(Str);
+  Proc,
+  \* @type: Str;
+  None
 ASSUME NoneNotProc == None \notin Proc
-VARIABLES pc, lock, res, ran, got
+VARIABLES
+  \* @type: Str -> Str;
+  pc,
+  \* @type: Str;
+  lock,
+  \* @type: Str;
+  res,
+  \* @type: Int;
+  ran,
+  \* @type: Str -> Str;
+  got
 vars == <<pc, lock, res, ran, got>>
 
 Crit == {"check", "body", "save", "rel"}
@@ -73,6 +87,9 @@ Progress ==
         ((ran = 0 /\ res = "none") \/ (ran = 1 /\ res = "complete"))
 GotOK == \A p \in Proc : got[p] = "complete" => res = "complete"
 IndInv == TypeOK /\ LockOwner /\ Progress /\ GotOK
+
+(* ---- Apalache cross-check (4 processes): apalache-mc check --cinit=CInit --init=IndInv --inv=IndInv --length=1 ---- *)
+CInit == Proc = {"p1", "p2", "p3", "p4"} /\ None = "none"
 
 (* ---- proof ---- *)
 LEMMA OwnerUnique == IndInv => Mutex
